@@ -1,6 +1,6 @@
 SPECIFICATION Spec
 CONSTANTS
-  InitHeaps <- MCInitHeaps
+  InitHeaps <- MCHeaps
   Phases <- MCPhases
   NatRank <- MCNatRank
 CONSTRAINT Emit
